@@ -71,7 +71,7 @@ func corpus() []*animenc.History {
 func check(c *Ctx, h *animenc.History, stream string) {
 	rng := c.Rng.Fork()
 	o, vkey := animenc.RunAndEval(c, h, rng, animenc.EvalLossless)
-	if h.HasRaw() || len(h.Frames) > 2000 {
+	if len(h.Frames) > 2000 {
 		// direct evaluation only: the model has no pre-encoded frames (and the 10000-frame
 		// session is too long a case line for the quick tier)
 		c.D.Evaluations++
@@ -184,8 +184,15 @@ func main() {
 		for i := 0; i < nraw; i++ {
 			rng := c.Rng.Fork()
 			h := animenc.RandHistory(rng, 8, true, false, 75, classes)
-			h.ICC, h.EXIF, h.XMP = nil, nil, nil
+			if i%3 != 0 {
+				h.ICC, h.EXIF, h.XMP = nil, nil, nil
+			}
 			animenc.AddRawFrames(rng, h)
+			if i%4 == 0 {
+				for k := rng.Range(1, 2); k > 0; k-- {
+					h.FailCalls = append(h.FailCalls, rng.Intn(3*len(h.Frames)))
+				}
+			}
 			check(c, h, "raw-frames")
 		}
 		// unit correspondences
